@@ -104,6 +104,8 @@ pub struct TransformerContext {
     /// ids registered ahead of their element being evaluated (or while it awaits
     /// a retry); these can't be referenced yet.
     pending_ids: HashSet<String>,
+    /// ids of elements which have been evaluated successfully at least once
+    completed_ids: HashSet<String>,
     /// Stack of elements which have been started but not yet ended
     ///
     /// Note empty elements are normally not pushed onto the stack,
@@ -136,6 +138,7 @@ impl Default for TransformerContext {
             elem_map: HashMap::new(),
             original_map: HashMap::new(),
             pending_ids: HashSet::new(),
+            completed_ids: HashSet::new(),
             element_stack: Vec::new(),
             prev_element: None,
             scope_stack: Vec::new(),
@@ -506,5 +509,12 @@ impl TransformerContext {
     /// The element registered under `id` has been evaluated.
     pub fn clear_pending(&mut self, id: &str) {
         self.pending_ids.remove(id);
+        self.completed_ids.insert(id.to_owned());
+    }
+
+    /// A measure of progress which only ever grows: the number of distinct elements
+    /// (with an id) evaluated successfully so far, at any nesting level.
+    pub fn progress(&self) -> usize {
+        self.completed_ids.len()
     }
 }
